@@ -119,7 +119,7 @@ def run_unit(name, spec, repo, workdir, tier="quick", seed=0, prop=None):
             else:
                 ent["msg"] = "kani status %s" % r["status"]
                 anyund = True
-            st = stats.get(h, {}).get("cbmc_stats", {})
+            st = (stats.get(h) or {}).get("cbmc_stats") or {}
             res["solver_ms"] += int(1000 * (st.get("runtime_solver_s", 0) + st.get("runtime_symex_s", 0)))
         res["harnesses"].append(ent)
     res["status"] = "failed" if anyfail else ("ok" if not anyund else "partial")
